@@ -43,6 +43,7 @@ bool exec_forms(ExecCtx &c) {
               bool same = grids_logically_equal(x.getSupport().getGrid(), y.getSupport().getGrid());
               bool distinct = same && !same_grid_object(x, y);
               if (same) probe_placement(x.getSupport(), y.getSupport());
+              c08_note(E_BILIN, x.getSupport().getGrid(), y.getSupport().getGrid());
               uint64_t got = 0;
               libcall(out, [&] {
                 with_plain_bilin(r, s, [&](auto &&bf) {
@@ -95,8 +96,13 @@ bool exec_forms(ExecCtx &c) {
                 });
               });
               out.obs = hmix(out.obs, got);
-              if (!same) c08_check(c, true, true, false, "BilinearForm::evaluate");
-              else if (overlap) c08_check(c, !vsame, true, false, "SplineOperator::transform");
+              if (!same) {
+                c08_note(E_BILIN, x.getSupport().getGrid(), y.getSupport().getGrid());
+                c08_check(c, true, true, false, "BilinearForm::evaluate");
+              } else if (overlap) {
+                c08_note(E_BILIN_FACTOR, x.getSupport().getGrid(), v.getSupport().getGrid());
+                c08_check(c, !vsame, true, false, "SplineOperator::transform");
+              }
             }
           },
           *xs, *ys, *vs);
@@ -144,7 +150,10 @@ bool exec_forms(ExecCtx &c) {
                 });
               });
               out.obs = hmix(out.obs, got);
-              if (has_int) c08_check(c, !same, true, false, "SplineOperator::transform");
+              if (has_int) {
+                c08_note(E_LIN_FACTOR, x.getSupport().getGrid(), v.getSupport().getGrid());
+                c08_check(c, !same, true, false, "SplineOperator::transform");
+              }
             }
           },
           *xs, *vs);
